@@ -594,6 +594,7 @@ const prelude = `
 (declare-fun gs.frombytes ((Array Int (_ BitVec 8)) Int Int) Str)
 (declare-fun bytes.ofstr (Str) (Array Int (_ BitVec 8)))
 (declare-fun gs.itoa (Int) Str)
+(declare-fun gs.lt (Str Str) Bool)
 (declare-fun gs.atoi (Str) Int)
 (declare-fun gs.fmtfloat (F64) Str)
 (declare-fun gs.frombyte ((_ BitVec 8)) Str)
@@ -620,6 +621,8 @@ const prelude = `
 (assert (forall ((s Str) (j Int)) (! (=> (and (<= 0 j) (< j (gs.len s))) (= (select (bytes.ofstr s) j) (gs.at s j))) :pattern ((select (bytes.ofstr s) j)))))
 (assert (forall ((s Str)) (! (= (gs.frombytes (bytes.ofstr s) 0 (gs.len s)) s) :pattern ((bytes.ofstr s)))))
 (assert (forall ((n Int)) (! (= (gs.atoi (gs.itoa n)) n) :pattern ((gs.itoa n)))))
+(assert (forall ((a Str) (b Str)) (! (and (not (and (gs.lt a b) (gs.lt b a))) (or (gs.lt a b) (gs.lt b a) (= a b))) :pattern ((gs.lt a b)))))
+(assert (forall ((a Str) (b Str) (c Str)) (! (=> (and (gs.lt a b) (gs.lt b c)) (gs.lt a c)) :pattern ((gs.lt a b) (gs.lt b c)))))
 (assert (forall ((n Int)) (! (>= (gs.len (gs.itoa n)) 1) :pattern ((gs.itoa n)))))
 (assert (forall ((b (_ BitVec 8))) (! (and (= (gs.len (gs.frombyte b)) 1) (= (gs.at (gs.frombyte b) 0) b)) :pattern ((gs.frombyte b)))))
 `
